@@ -118,10 +118,18 @@ class Contract:
                  allocates=False, loops=None, returns='none', axioms=(), hints=None,
                  role=False, pure=False, noraise_ok=True, ghost=None, cases=None, free_requires=(),
                  known=None, defaults=None, ghost_init=None, varkw=None, ghost_kinds=None,
-                 call_asserts=None, call_ghost=None, call_effects=None, target=None, closure=None):
+                 call_asserts=None, call_ghost=None, call_effects=None, target=None, closure=None,
+                 body_after_assign=None, locals_in=None, env=False, prefix_checks=None):
         self.name = name
         self.target = target or name    # qualified name of the code this contract is checked against
         self.closure = closure or {}    # free variables of a lambda / nested function: name -> kind
+        # partial verification of a long function: the body is cut (mechanically, on every run) after the last
+        # top-level statement that assigns `body_after_assign`; the locals the tail reads (`locals_in`: name -> kind)
+        # become unconstrained inputs.  What is dropped is reported in the evidence.
+        self.body_after_assign = body_after_assign
+        self.locals_in = locals_in or {}
+        self.env = env                  # the function talks to the environment model (pyvc/envmodel.py)
+        self.prefix_checks = prefix_checks or []   # syntactic facts about the dropped prefix that the preconditions rely on
         self.params = params            # ordered dict name -> kind
         self.requires = list(requires)
         self.free_requires = list(free_requires)   # assumed on entry, not asserted at call sites
@@ -564,7 +572,10 @@ class Engine:
             return z3.If(za == zb, True,
                    z3.If(z3.And(intl(za), intl(zb)), T.as_int(za) == T.as_int(zb),
                          z3.If(z3.And(prim(za), prim(zb)), False,
-                               veq(st.heap['slots'], st.heap['llen'], st.heap['lat'], za, zb))))
+                               # plain functions compare by identity (with each other and with primitives)
+                               z3.If(z3.Or(z3.And(T.Val.is_VF(za), z3.Or(T.Val.is_VF(zb), prim(zb))),
+                                           z3.And(T.Val.is_VF(zb), prim(za))), False,
+                                     veq(st.heap['slots'], st.heap['llen'], st.heap['lat'], za, zb)))))
         # different static kinds
         prims = (VInt, VBool, VBytes, VStr, VNone)
         if isinstance(a, prims) and isinstance(b, prims):
